@@ -44,7 +44,7 @@ def mc_lang(run, name, depth, mode, emit, samplek, names=NAMES3, nv=3, simulate=
     return path, cases, res
 
 
-def harness_with_watchdog(sub, cases_path, per_call_timeout=300):
+def harness_with_watchdog(sub, cases_path, per_call_timeout=120):
     """Run a replay sub-command; a hang of the code under test on a case the specification says
     terminates is data: it is reported and the run resumes after that case."""
     build_harness()
@@ -76,8 +76,11 @@ def harness_with_watchdog(sub, cases_path, per_call_timeout=300):
                 if "mismatch" in j:
                     mism.append(j["mismatch"])
             skip = ci + 1
-            if len(hangs) > 20:
-                raise ToolError("more than 20 hangs in %s" % sub)
+            if len(hangs) >= 4:
+                # enough evidence: every hang is reported as a violation; the remaining cases are not replayed
+                agg = {"cases": ci + 1, "evaluations": 0, "mismatches": len(mism), "kinds": {}, "token_kinds_spelled": [],
+                       "nonconstant_formulas": 0, "samples": [], "monotone_bodies": 0, "stopped_after_hangs": len(hangs)}
+                break
             continue
         if p.returncode != 0:
             raise ToolError("harness %s exited %d" % (sub, p.returncode))
